@@ -10,6 +10,8 @@ SUMMARIES = [
     "caf\u00e9 \u65e5\u672c\u8a9e",
     "percent % hash # colon : equals = [x]",
     "q \"quoted\" 'single'",
+    "emoji \U0001F600 math \U0001D538 cjk-ext \U00020000",
+    "line sep \u2028 para sep \u2029 nel \u0085 end",
 ]
 
 TZ_AMS = (
@@ -138,6 +140,8 @@ def vcf(rng, uid=None, fn=None):
         L.append("TEL;TYPE=CELL:+1 555 %04d" % rng.randint(0, 9999))
     if rng.random() < 0.3:
         L.append("NOTE:" + ("note text " * rng.randint(3, 15)).strip())
+    if rng.random() < 0.25:
+        L.append("NOTE:" + rng.choice(["first paragraph\u2028second paragraph", "nel\u0085inside", "emoji \U0001F600 \U0001F468", "para\u2029sep", "cjk-ext \U00020000"]))
     L.append("END:VCARD")
     return ("\r\n".join(_fold(x) for x in L) + "\r\n").encode("utf-8")
 
@@ -154,6 +158,11 @@ INVALID_ICS = {
     "empty": lambda rng: b"",
     "truncated": lambda rng: ics(rng, "trunc-uid")[: -rng.randint(15, 60)],
     "control": lambda rng: ics(rng, "ctl-uid", summary="bad\x01char"),
+    "control-nested": lambda rng: ics(rng, "ctl2-uid", comp="VEVENT", rich=0).replace(
+        b"END:VEVENT", rng.choice([b"BEGIN:VALARM\r\nACTION:DISPLAY\r\nDESCRIPTION:bad\x0cchar\r\nTRIGGER:-PT15M\r\nEND:VALARM\r\nEND:VEVENT",
+                                   b"BEGIN:VALARM\r\nACTION:DISPLAY\r\nDESCRIPTION:bad\x01char\r\nTRIGGER:-PT5M\r\nEND:VALARM\r\nEND:VEVENT"])),
+    "control-timezone": lambda rng: ics(rng, "ctl3-uid", comp="VEVENT", rich=0).replace(
+        b"END:VCALENDAR", b"BEGIN:VTIMEZONE\r\nTZID:X/Y\r\nBEGIN:STANDARD\r\nDTSTART:19701025T030000\r\nTZNAME:bad\x01\r\nTZOFFSETFROM:+0200\r\nTZOFFSETTO:+0100\r\nEND:STANDARD\r\nEND:VTIMEZONE\r\nEND:VCALENDAR"),
     "html": lambda rng: b"<html><body>nope</body></html>",
 }
 
